@@ -95,6 +95,7 @@ func (r *Report) finish(evdir string, writeEvidence bool) int {
 	var samples []any
 	var vacuity []string
 	replayDir := filepath.Join("/verif/replay", r.Prop)
+	var replays map[*Obligation]*ReplayResult
 	emitViolation := func(name, reason string, o *Obligation) {
 		violations++
 		os.MkdirAll(replayDir, 0o755)
@@ -113,10 +114,9 @@ func (r *Report) finish(evdir string, writeEvidence bool) int {
 			rep["answer"] = o.Answer
 			rep["solver_output"] = o.Model
 			rep["query"] = o.Query
-			if o.Answer == "sat" && o.Model != "" {
-				rp := tryReplay(r.p, o)
+			if rp := replays[o]; rp != nil {
 				rep["replay"] = rp
-				if rp != nil && rp.Confirmed {
+				if rp.Confirmed {
 					suffix = ""
 				}
 			}
@@ -125,6 +125,16 @@ func (r *Report) finish(evdir string, writeEvidence bool) int {
 		os.WriteFile(path, data, 0o644)
 		fmt.Printf("VIOLATION property=%s replay=%s obligation=%s reason=%s%s\n", r.Prop, path, name, reason, suffix)
 	}
+	// replay the failed obligations on the real code first
+	var failedObls []*Obligation
+	for _, u := range r.Results {
+		for _, o := range u.Obligations {
+			if !o.Vacuity && o.Status == "failed" && isKnown(o.Name) == nil {
+				failedObls = append(failedObls, o)
+			}
+		}
+	}
+	replays = replayAll(r.p, failedObls)
 	for _, pr := range r.Problems {
 		emitViolation("contracts", pr, nil)
 	}
@@ -258,10 +268,6 @@ var unmechanised = map[string][]string{}
 type ReplayResult struct {
 	Confirmed bool   `json:"confirmed"`
 	Note      string `json:"note"`
-	Test      string `json:"test,omitempty"`
+	Input     string `json:"input,omitempty"`
 	Output    string `json:"output,omitempty"`
-}
-
-func tryReplay(p *Prog, o *Obligation) *ReplayResult {
-	return replayModel(p, o)
 }
